@@ -25,7 +25,9 @@ RULE = ('A case is (scenario, schedule): client programs (sync/async requests, t
         'after the other calls: refused with a transport error (close(): returns), the body\'s exception is never replaced by a foreign one; real_apps = (transport, 0..3 application listeners '
         'with errbacks that raise / are slow / unregister themselves or everybody / register others / re-enter, forced position relative '
         'to the reply listener in the listener set, outstanding synchronous and pipelined requests, loss incl. an application callback '
-        'that raises): every outstanding request still fails promptly with a transport error.')
+        'that raises): every outstanding request still fails promptly with a transport error; real_end / real_later / real_apps also with an EARLIER history of the session: '
+        'payloads that are not XML (lts.HOSTILE) for which the junos profile / a custom handler class (handle_raw_dispatch returns an exception of several '
+        'classes) makes the session broadcast a NON-fatal error, before the requests or while some are outstanding, then new requests, then the loss: same oracle.')
 ASSUMES = ['CPython executes the code between two instrumented synchronisation points atomically with respect to the other managed threads (GIL + cooperative scheduler)',
            'uuid4 message-ids are unique (fresh-id oracle of the LTS; a trace violating it is rejected by the model)',
            'threading.Event/Lock/queue.Queue/selectors behave as the instrumented stand-ins (tools/harness/sched.py)']
